@@ -239,6 +239,21 @@ func hPool() []hCons {
 		low := "<math" + s[5:]
 		p = append(p, hOne(html.MathToken, s, low, ""))
 	}
+	// one kind of foreign content nested in the other: the subtree ends at the end tag of the outer kind only
+	for _, s := range []string{"<svg><math></math>x</svg>", "<svg><foreignObject><math><mi>x</mi></MATH ></foreignObject><rect/></svg>", "<svg><xml></xml><g/></svg>"} {
+		p = append(p, hOne(html.SVGToken, s, s, ""))
+	}
+	for _, s := range []string{"<math><annotation-xml><svg></svg></annotation-xml><mi/></math>", "<math><svg><math></svg></math>"} {
+		p = append(p, hOne(html.MathToken, s, s, ""))
+	}
+	// raw-text elements as constructs (empty and with markup-like content): what follows them is markup again
+	for _, name := range []string{"title", "script", "style", "textarea", "xmp", "iframe"} {
+		open := []hTok{{tt: html.StartTagToken, data: "<" + name, text: name}, {tt: html.StartTagCloseToken, data: ">"}}
+		end := hTok{tt: html.EndTagToken, data: "</" + name + ">", text: name}
+		p = append(p, hCons{"<" + name + "></" + name + ">", append(append([]hTok{}, open...), end)})
+		content := "a<b </p>"
+		p = append(p, hCons{"<" + name + ">" + content + "</" + name + ">", append(append(append([]hTok{}, open...), hTok{tt: html.TextToken, data: content, text: content}), end)})
+	}
 	return p
 }
 
